@@ -30,7 +30,7 @@ Definition tree_init (capacity : Z) : option ctree :=
 (* Fuel for every recursive function of this file.  Nodes are never freed before the
    tree dies and every node_create consumes one address, so [next_id - 1] is the number
    of nodes of the tree: an upper bound of its height and of the length of the leaf
-   chain (invariant [CInv], C/Inv.v). *)
+   chain (invariant [CInv], C/PInv.v). *)
 Definition fuel_of (t : ctree) : nat := S (N.to_nat (next_id t)).
 
 (* bisect_right routing used by tree_find_leaf and tree_insert_recursive *)
